@@ -36,13 +36,17 @@ Lemma cal_account2 up k e im el d3 :
   (m_off m = true -> up_on d3 = false /\ down_on d3 = false /\ delayed d3 = None).
 Proof.
   intros R C Hel Hc Hsum HT E3. cbv zeta.
-  unfold acc_post, acc_pre in E3.
   pose proof (cal_only _ _ C) as Oe.
   assert (Sa : same_core e (acc_add e up el)) by (unfold acc_add; destruct up; sc).
   assert (Ca : carry_of up (acc_add e up el) = carry_of up e + el /\ carry_of (negb up) (acc_add e up el) = 0 /\
                last_comm (acc_add e up el) = last_comm e /\ now (acc_add e up el) = now e).
   { unfold acc_add, carry_of in *. destruct up; cbn [negb]; frw; repeat split; try reflexivity; apply u32_small; lia. }
   destruct Ca as (Ca & Cn & Lca & Nwa).
+  assert (Scm0 : same_core (acc_add e up el) (acc_cm k (acc_add e up el) up im))
+    by (unfold acc_cm; destruct (0 <? carry_of up (acc_add e up el)); [apply same_core_check_motor|apply same_core_refl]).
+  assert (S40 : ac_step (acc_cm k (acc_add e up el) up im) = 0)
+    by (rewrite (k2_step _ _ (sc_k2 _ _ (same_core_trans _ _ _ Sa Scm0))); exact (cal_step _ _ C)).
+  rewrite (acc_post_pre_eq o k e up im el (full_k up e) S40) in E3. clear Scm0 S40.
   remember (acc_add e up el) as d2a eqn:E2a. clear E2a.
   assert (Scm : same_core d2a (acc_cm k d2a up im)) by (unfold acc_cm; destruct (0 <? carry_of up d2a); [apply same_core_check_motor|apply same_core_refl]).
   pose proof (sub_carry up _ _ (ltac:(unfold acc_cm; destruct (0 <? carry_of up d2a); [apply sub_check_motor|apply sub_refl]) : sub up d2a (acc_cm k d2a up im))) as Ccm.
@@ -51,8 +55,6 @@ Proof.
   remember (acc_cm k d2a up im) as d4 eqn:E4. clear E4 Subcm.
   pose proof (same_core_trans _ _ _ Sa Scm) as S04.
   assert (S4 : ac_step d4 = 0) by (rewrite (k2_step _ _ (sc_k2 _ _ S04)); exact (cal_step _ _ C)).
-  assert (Eac : autocalibrate k d4 im = (fl_clear d4 FLAG_CALIBRATION_IN_PROGRESS, false)) by (unfold autocalibrate; rewrite S4; reflexivity).
-  rewrite Eac in E3. unfold acc_full in E3. rewrite !fst_pair2 in E3. cbn [snd] in E3.
   assert (S45 : same_core d4 (fl_clear d4 FLAG_CALIBRATION_IN_PROGRESS)) by sc.
   assert (C5 : carry_of up (fl_clear d4 FLAG_CALIBRATION_IN_PROGRESS) = carry_of up d4 /\ carry_of (negb up) (fl_clear d4 FLAG_CALIBRATION_IN_PROGRESS) = carry_of (negb up) d4 /\
                last_comm (fl_clear d4 FLAG_CALIBRATION_IN_PROGRESS) = last_comm d4 /\ now (fl_clear d4 FLAG_CALIBRATION_IN_PROGRESS) = now d4)
@@ -63,11 +65,11 @@ Proof.
   pose proof (sc_k2 _ _ S05) as K05.
   assert (Kn5 : known (pos d5) = true) by (rewrite (k2_pos _ _ K05); exact (cal_known _ _ C)).
   rewrite (calibrate_d_known o k d5 _ _ _ Kn5) in E3.
-  assert (Em : move_position o (cfg_of k d5) (pos d5) (tilt d5) (if up then up_time d5 else down_time d5) (full_k up e) up =
+  assert (Em : move_position o (cfg_of k d5) (pos d5) (tilt d5) (carry_of up d5) (full_k up e) up =
                move_position o (cfg_of k e) (pos e) (tilt e) (carry_of up e + el) (full_k up e) up).
   { assert (Ecf : cfg_of k d5 = cfg_of k e) by (unfold cfg_of; rewrite (k2_t1 _ _ K05), (k2_t2 _ _ K05); reflexivity).
-    rewrite Ecf, (k2_pos _ _ K05), (k2_tilt _ _ K05). f_equal. change (if up then up_time d5 else down_time d5) with (carry_of up d5). lia. }
-  unfold move_position_d in E3. rewrite Em in E3.
+    rewrite Ecf, (k2_pos _ _ K05), (k2_tilt _ _ K05). f_equal. lia. }
+  rewrite move_position_d_eq, Em in E3.
   remember (move_position o (cfg_of k e) (pos e) (tilt e) (carry_of up e + el) (full_k up e) up) as m eqn:Emm.
   assert (Mt : m_tilt m = tilt e).
   { subst m. exact (proj1 (proj2 (move_position_rs o OK (cfg_of k e) (pos e) (tilt e) (carry_of up e + el) (full_k up e) up (rsk_cfg k e R) (cal_known _ _ C) HT))). }
@@ -79,20 +81,19 @@ Proof.
     exact (proj1 (M4 (cal_known _ _ C))). }
   clear Emm Em.
   (* the state after position / carry have been written *)
-  remember (if up then upd_times (upd_pt d5 (m_pos m) (m_tilt m)) (m_time m) (down_time (upd_pt d5 (m_pos m) (m_tilt m))) (last_time (upd_pt d5 (m_pos m) (m_tilt m))) (last_comm (upd_pt d5 (m_pos m) (m_tilt m)))
-            else upd_times (upd_pt d5 (m_pos m) (m_tilt m)) (up_time (upd_pt d5 (m_pos m) (m_tilt m))) (m_time m) (last_time (upd_pt d5 (m_pos m) (m_tilt m))) (last_comm (upd_pt d5 (m_pos m) (m_tilt m)))) as d6 eqn:E6.
+  remember (mpd_write d5 m up) as d6 eqn:E6.
   assert (F6 : pos d6 = m_pos m /\ tilt d6 = m_tilt m /\ carry_of up d6 = m_time m /\ carry_of (negb up) d6 = carry_of (negb up) d5 /\
                keeps3 d5 d6 /\ aot d6 = aot d5 /\ act d6 = act d5 /\ time1 d6 = time1 d5 /\ time2 d6 = time2 d5 /\ ac_step d6 = ac_step d5 /\ perform d6 = perform d5 /\
                last_comm d6 = last_comm d5 /\ now d6 = now d5 /\ up_on d6 = up_on d5 /\ down_on d6 = down_on d5 /\ delayed d6 = delayed d5 /\ start_time d6 = start_time d5).
-  { subst d6. unfold carry_of. destruct up; cbn [negb]; frw; repeat split; try reflexivity; k3. }
+  { subst d6. unfold mpd_write, carry_of. destruct up; cbn [negb]; frw; repeat split; try reflexivity; k3. }
   clear E6. destruct F6 as (P6 & T6 & Cy6 & Cn6 & K36 & A6 & B6 & T16 & T26 & St6 & Pf6 & Lc6 & Nw6 & U6 & D6 & Dl6 & Ss6).
   pose proof (sc_k3 _ _ S05) as K305.
   assert (Step6 : ac_step d6 = 0) by (rewrite St6, (k2_step _ _ K05); exact (cal_step _ _ C)).
   destruct (m_off m) eqn:Eoff.
-  - remember (if autocal_done d6 && im then fl_set d6 FLAG_CALIBRATION_LOST else d6) as d7 eqn:E7.
-    assert (S67 : same_core d6 d7) by (subst d7; destruct (autocal_done d6 && im); [sc|apply same_core_refl]).
+  - remember (mpd_lost d6 im) as d7 eqn:E7.
+    assert (S67 : same_core d6 d7) by (subst d7; unfold mpd_lost; destruct (autocal_done d6 && im); [sc|apply same_core_refl]).
     assert (C7 : carry_of up d7 = carry_of up d6 /\ carry_of (negb up) d7 = carry_of (negb up) d6 /\ last_comm d7 = last_comm d6 /\ now d7 = now d6).
-    { subst d7. destruct (autocal_done d6 && im); unfold carry_of; destruct up; cbn [negb]; frw; auto. }
+    { subst d7. unfold mpd_lost. destruct (autocal_done d6 && im); unfold carry_of; destruct up; cbn [negb]; frw; auto. }
     clear E7. destruct C7 as (C7 & C7n & Lc7 & Nw7).
     pose proof (sc_k2 _ _ S67) as K67.
     assert (Step7 : ac_step d7 = 0) by (rewrite (k2_step _ _ K67); exact Step6).
